@@ -77,6 +77,8 @@ type Config struct {
 	Redirects     map[string]string
 	SkipFuncs     map[string]bool
 	BigW          int
+	Preempt       int    // budget of scheduler preemptions per path at synchronisation operations (0 = cooperative run-to-block only)
+	BigArith      string // "" = bit-vector Mul/Mod, "uf" = uninterpreted Mul/Mod (+ contract 0 <= Mod < |y|)
 	Trace         bool
 	Deadline      time.Time
 	ExpectPanic   bool
@@ -474,6 +476,8 @@ type pathState struct {
 	violations     []Violation
 	inconclusive   []string
 	endedByAssume  bool
+	preempts       int
+	implied        map[*Term]bool // conditions the solver showed to be forced by the path condition
 	expectPanic    bool
 	end            string
 }
@@ -703,6 +707,25 @@ func (i *interpreter) decide(c *Term, why string) bool {
 	if profileSites {
 		ps.stubs["decide:"+why+i.where()]++
 	}
+	// a condition that is literally a path-condition conjunct (or its
+	// negation) needs no solver call
+	if v, ok := ps.implied[c]; ok {
+		ps.trace = append(ps.trace, decision{Kind: dBranch, B: v, Forced: true})
+		return v
+	}
+	if i.guard == nil || i.guard.IsTrue() {
+		nc := tt.Not(c)
+		for _, p := range ps.pc {
+			if p == c {
+				ps.trace = append(ps.trace, decision{Kind: dBranch, B: true, Forced: true})
+				return true
+			}
+			if p == nc {
+				ps.trace = append(ps.trace, decision{Kind: dBranch, B: false, Forced: true})
+				return false
+			}
+		}
+	}
 	rT, _ := ps.wk.check(i.pcWith(c), nil)
 	var rF SatResult
 	if rT == Unsat {
@@ -724,9 +747,21 @@ func (i *interpreter) decide(c *Term, why string) bool {
 		_ = idx
 		return true
 	case rT != Unsat:
+		if rF == Unsat && (i.guard == nil || i.guard.IsTrue()) {
+			if ps.implied == nil {
+				ps.implied = map[*Term]bool{}
+			}
+			ps.implied[c] = true
+		}
 		ps.trace = append(ps.trace, decision{Kind: dBranch, B: true, Forced: true})
 		return true
 	case rF != Unsat:
+		if rT == Unsat && (i.guard == nil || i.guard.IsTrue()) {
+			if ps.implied == nil {
+				ps.implied = map[*Term]bool{}
+			}
+			ps.implied[c] = false
+		}
 		ps.trace = append(ps.trace, decision{Kind: dBranch, B: false, Forced: true})
 		return false
 	}
@@ -865,6 +900,15 @@ func (i *interpreter) assume(c *Term) {
 	if r == Unsat {
 		panic(pathEnd{"assume"})
 	}
+}
+
+// assumeContract adds a fact that is true of the real function being
+// abstracted (always satisfiable), without a feasibility query.
+func (i *interpreter) assumeContract(c *Term) {
+	if c.IsTrue() {
+		return
+	}
+	i.ps.pc = append(i.ps.pc, i.guarded(c))
 }
 
 func (i *interpreter) assert(c *Term, msg string) {
